@@ -66,6 +66,14 @@ def cases(tier, seed):
             s['circuit']['edges'][0][3]['delay'] = d
             s['circuit']['edges'][1][3]['delay'] = 2 * d
             add(s, 'dde_approx', dde_approx=n)
+    # the source of a kernel edge is also read by another operator of its own node (which sees the present value)
+    for i in range(len(DS)):
+        for order in (('ro', 'rd'), ('rd', 'ro')):
+            tpls = {'M': [[o, {}] for o in order], 'Ta': [['to', {}]]}
+            add({'ops': C09.OPS, 'node_tpls': tpls, 'edge_tpls': {}, 'share': True,
+                 'circuit': {'name': 'net', 'nodes': {'m': 'M', 'a': 'Ta'},
+                             'edges': [['m/ro/z', 'a/to/u', None, {'weight': 2.0, 'delay': DS[i][0], 'spread': DS[i][1]}]]}},
+                'one')
     # Connectivity(delays, spread): one and two kernels leaving one population variable
     for s1, s2 in ((0.5, 0.7), (0.7, 0.5), (0.5, None), (0.5, 0.5), (0.35, 0.7)):
         for d2 in (1.0, 0.5):
